@@ -3,29 +3,10 @@
 (* `column OP literal` over the always-available columns of world W2, with   *)
 (* literals drawn from the attribute values present in the tree, their       *)
 (* neighbours and a few others.  One TLC state per atom.                     *)
-EXTENDS WorldC02, Civil, TLC, Json, FiniteSets
+EXTENDS WorldC02, Lang, Json, FiniteSets
 
 VARIABLES atom, phase
 NoAtom == [col |-> "", op |-> ""]
-
-Lit(lk, v, c, b, a, z, as, ae, name, text) ==
-  [lk |-> lk, v |-> v, c |-> c, b |-> b, a |-> a, z |-> z, astart |-> as, aend |-> ae, name |-> name, text |-> text]
-IntL(v) == Lit("int", v, <<>>, FALSE, 0, 0, FALSE, FALSE, "", ToString(v))
-SizeL(v, txt) == Lit("int", v, <<>>, FALSE, 0, 0, FALSE, FALSE, "", txt)
-TextL(c) == Lit("text", 0, c, FALSE, 0, 0, FALSE, FALSE, "", "'" \o Str(c) \o "'")
-BoolL(b, word) == Lit("bool", 0, <<>>, b, 0, 0, FALSE, FALSE, "", word)
-DateL(a, z, txt) == Lit("date", 0, <<>>, FALSE, a, z, FALSE, FALSE, "", "'" \o txt \o "'")
-RxL(c, as, ae) == Lit("rx", 0, c, FALSE, 0, 0, as, ae, "",
-                      "'" \o (IF as THEN "^" ELSE "") \o Str(c) \o (IF ae THEN "$" ELSE "") \o "'")
-ColL(name) == Lit("col", 0, <<>>, FALSE, 0, 0, FALSE, FALSE, name, name)
-
-OpText(op) == CASE op = "eq" -> "=" [] op = "ne" -> "!=" [] op = "gt" -> ">" [] op = "gte" -> ">="
-                [] op = "lt" -> "<" [] op = "lte" -> "<=" [] op = "eeq" -> "===" [] op = "ene" -> "!=="
-                [] op = "rx" -> "=~" [] op = "notrx" -> "!=~" [] op = "like" -> "like" [] op = "notlike" -> "not like"
-                [] op = "between" -> "between"
-
-A(col, op, lit, lit2, class) == [col |-> col, op |-> op, lit |-> lit, lit2 |-> lit2, class |-> class]
-A1(col, op, lit, class) == A(col, op, lit, lit, class)
 
 CmpOps == {"eq", "ne", "gt", "gte", "lt", "lte", "eeq", "ene"}
 OrdOps == {"eq", "ne", "gt", "gte", "lt", "lte"}
@@ -109,13 +90,10 @@ Init == atom = NoAtom /\ phase = "start"
 Next == phase = "start" /\ atom' \in Atoms /\ phase' = "done"
 Spec == Init /\ [][Next]_<<atom, phase>>
 
-CondText(a) == IF a.op = "istrue" THEN a.col
-               ELSE IF a.op = "between" THEN a.col \o " between " \o a.lit.text \o " and " \o a.lit2.text
-               ELSE a.col \o " " \o OpText(a.op) \o " " \o a.lit.text
-
-Scenario == [prop |-> "C02", class |-> atom.class, world |-> W2, formula |-> [f |-> "atom", a |-> atom],
+Scenario == [prop |-> "C02", class |-> atom.class, world |-> "W2", formula |-> [f |-> "atom", a |-> atom],
              env |-> [tz |-> "UTC", cwd |-> 0],
              runs |-> << [tag |-> "q", ncols |-> 1,
                           argv |-> << "select path from '.' where " \o CondText(atom) \o " into list" >>] >>]
+EmitWorld == (phase = "start") => PrintT(<<"WORLD", ToJson([key |-> "W2", world |-> W2])>>)
 Emit == phase = "done" => PrintT(<<"REPLAY", ToJson(Scenario)>>)
 =============================================================================
